@@ -122,7 +122,7 @@ def clear_contract(ast, L, tf):
 
 UNITS.append(Unit('blk.clear', ('CdnsBlock::clear', None), contract=clear_contract, prelude=P, pre_c=PRE_C, extern_records=EXT,
                   stubs=['BlockTable_[A-Za-z]+__clear', 'seq_[A-Za-z0-9_]+__clear', 'umap_[A-Za-z0-9_]+__clear'],
-                  setup='  static struct CdnsBlock obj;\n', args=['&obj'], props=['C11', 'C12'], timeout=300,
+                  setup='  static struct CdnsBlock obj;\n', args=['&obj'], props=['C11', 'C12', 'C02'], timeout=300,
                   auto_inline=[r'[A-Za-z]+__ctor__\w+', r'[A-Za-z]+__default'],
                   note='whatever the block holds (also tables populated while no item is buffered): every table and every item array is empty afterwards, statistics and earliest time reset'))
 
